@@ -115,7 +115,7 @@ def _homepage(path):
 
 def youtube_predicate(url):
     sc = _scope(url)
-    if sc is None or sc[1].endswith("."):
+    if sc is None or sc[1].endswith(".") or url != url.strip():
         return True           # fully qualified spelling 'youtu.be.': left open (the tries compare labels literally)
     parsed, host = sc
     expected = _listed(host, YOUTUBE_DOMAINS)
@@ -124,7 +124,7 @@ def youtube_predicate(url):
 
 def shortener_predicates(url):
     sc = _scope(url)
-    if sc is None or sc[1].endswith("."):
+    if sc is None or sc[1].endswith(".") or url != url.strip():
         return True
     parsed, host = sc
     home = _homepage(parsed.path)
